@@ -321,3 +321,125 @@ def validate_histories(ctx, items, tag, chunk=250, par=None):
         for rej in ex.map(one, list(enumerate(batches))):
             rejected += rej
     return rejected
+
+
+# ---------------------------------------------------------------------------
+# Pipes (C06)
+
+def pipes_module(name, stream):
+    acts = ['FeederAdd', 'FeederClose', 'HelperTake', 'HelperPut', 'HelperClose', 'JoinerTake', 'JoinerPut', 'JoinerClose']
+    lines = ['---- MODULE %s ----' % name, 'EXTENDS Pipes, Json', '',
+             'MCStream == <<%s>>' % ', '.join(str(v) for v in stream),
+             'State == [qs |-> qs, pc |-> pc, got |-> got, wg |-> wg, sent |-> sent]',
+             "StateP == [qs |-> qs', pc |-> pc', got |-> got', wg |-> wg', sent |-> sent']",
+             'Emit(a, p) == PrintT(ToJson([a |-> a, p |-> p, pre |-> State, post |-> StateP]))',
+             'ExportNext ==']
+    for a in acts:
+        proc = 'feeder' if a.startswith('Feeder') else 'helper' if a.startswith('Helper') else 'joiner'
+        lines.append('    \\/ (%s /\\ Emit("%s", "%s"))' % (a, a, proc))
+    lines += ['    \\/ \\E r \\in Readers : (Read(r) /\\ Emit("Read", r))',
+              'ExportSpec == Init /\\ [][ExportNext]_vars',
+              'LiveSpec == Init /\\ [][Next]_vars /\\ WF_vars(Next)', '====']
+    return '\n'.join(lines) + '\n'
+
+
+def pipes_check(ctx, mode, k, stream, cap, workers=4, timeout=900):
+    name = 'MCP_%s_%d_%d_%d' % (mode, k, len(stream), cap)
+    d = ctx.specdir()
+    with open(os.path.join(d, name + '.tla'), 'w') as f:
+        f.write(pipes_module(name, stream))
+    consts = 'CONSTANTS\n  Mode = "%s"\n  K = %d\n  Stream <- MCStream\n  Cap = %d\n' % (mode, k, cap)
+    cfg = 'SPECIFICATION ExportSpec\nCHECK_DEADLOCK FALSE\n%sINVARIANTS OrderInv Complete ClosedAfterDrain Bounded WgInv NoStuck\n' % consts
+    code, out = ctx.tlc(name, cfg, workers=workers, timeout=timeout, name=name + '_safe')
+    edges, seen, stats = [], set(), {}
+    for line in out.splitlines():
+        if line.startswith('"{'):
+            if line not in seen:
+                seen.add(line)
+                edges.append(json.loads(json.loads(line)))
+        elif 'distinct states found' in line and 'Progress' not in line:
+            nums = [int(x) for x in line.replace(',', '').split() if x.isdigit()]
+            stats = {'generated': nums[0], 'distinct': nums[1]}
+    violated = []
+    if 'is violated' in out:
+        import re
+        violated = re.findall(r'Invariant (\w+) is violated', out)
+    elif 'Model checking completed. No error has been found.' not in out:
+        raise Infra('Pipes %s: safety run failed:\n%s' % (name, '\n'.join(l for l in out.splitlines() if not l.startswith('"{'))[-2500:]))
+    cfg = 'SPECIFICATION LiveSpec\nCHECK_DEADLOCK FALSE\n%sPROPERTIES Termination\n' % consts
+    code, o = ctx.tlc(name, cfg, workers=workers, timeout=timeout, name=name + '_live')
+    if 'Temporal propert' in o and 'violated' in o:
+        violated.append('Termination')
+    elif 'No error has been found' not in o:
+        raise Infra('Pipes %s: liveness run failed:\n%s' % (name, o[-2000:]))
+    return {'edges': edges, 'stats': stats, 'violated': violated}
+
+
+def pipes_schedules(edges, seed, max_schedules=3000):
+    rnd = random.Random(seed)
+    out = collections.defaultdict(list)
+    for i, ed in enumerate(edges):
+        out[canon(ed['pre'])].append(i)
+    posts = set(canon(e['post']) for e in edges)
+    init = next(canon(e['pre']) for e in edges if canon(e['pre']) not in posts)
+    postkey = [canon(e['post']) for e in edges]
+    uncovered = set(range(len(edges)))
+    scheds = []
+
+    def step(ed):
+        pre, post = ed['pre'], ed['post']
+        p = ed['p']
+        got = False
+        if ed['a'] in ('HelperTake', 'JoinerTake'):
+            got = post['pc'][p] == 'put'
+        elif ed['a'] == 'Read':
+            got = len(post['got'][p]) > len(pre['got'][p])
+        return {'a': ed['a'], 'p': p, 'got': got, 'end': post['pc'][p] == 'done',
+                'obs': {'qs': {n: post['qs'][n]['q'] for n in post['qs']}, 'got': post['got'], 'wg': post['wg']}}
+
+    def bfs(start):
+        prev = {start: None}
+        dq = collections.deque([start])
+        while dq:
+            s = dq.popleft()
+            if any(i in uncovered for i in out.get(s, ())):
+                path, cur = [], s
+                while prev[cur] is not None:
+                    path.append(prev[cur])
+                    cur = canon(edges[prev[cur]]['pre'])
+                return list(reversed(path)), s
+            for i in out.get(s, ()):
+                if postkey[i] not in prev:
+                    prev[postkey[i]] = i
+                    dq.append(postkey[i])
+        return None, None
+
+    while uncovered and len(scheds) < max_schedules:
+        path, s = bfs(init)
+        if path is None:
+            break
+        walk, cur = list(path), s
+        while out.get(cur):
+            cand = [i for i in out[cur] if i in uncovered] or list(out[cur])
+            i = rnd.choice(cand)
+            walk.append(i)
+            uncovered.discard(i)
+            cur = postkey[i]
+        for i in path:
+            uncovered.discard(i)
+        last = edges[walk[-1]]['post']
+        final = 'done' if all(v == 'done' for v in last['pc'].values()) else 'stuck'
+        scheds.append({'id': len(scheds), 'steps': [step(edges[i]) for i in walk], 'final': final})
+    return scheds, len(uncovered)
+
+
+def pipes_replay(ctx, mode, k, stream, cap, scheds):
+    tag = '%s_%d_%d_%d' % (mode, k, len(stream), cap)
+    jf = ctx.path('pjob_%s.json' % tag)
+    with open(jf, 'w') as f:
+        json.dump({'mode': mode, 'k': k, 'cap': cap, 'stream': stream, 'schedules': scheds}, f)
+    out = ctx.path('pres_%s.ndjson' % tag)
+    r = subprocess.run([ctx.vh, 'pipe-replay', '-job', jf, '-out', out], capture_output=True, text=True, timeout=3600)
+    if r.returncode != 0:
+        raise Infra('pipe-replay failed: %s %s' % (r.stdout[-1500:], r.stderr[-1500:]))
+    return [json.loads(l) for l in open(out)]
